@@ -220,6 +220,25 @@ def dense_kernels(ctx, lab, count):
     return out
 
 
+def timing_failures(rec, to, spec_interval, klen):
+    """[(message, replay extras, exceedance in s)] of one real-clock run against the three wall-clock bounds"""
+    out = []
+    bound = to + spec_interval + SLACK_WAIT
+    if rec.wait_wall > bound:
+        out.append(("waiting for the LCD workers took %.2fs with timeout %s (bound %.2fs)" % (rec.wait_wall, to, bound),
+                    {"wait": rec.wait_wall, "bound": bound, "sleeps": rec.sleeps[:5]}, rec.wait_wall - bound))
+    span = (rec.readings[-1] - rec.readings[0]) if len(rec.readings) >= 2 else 0.0
+    if span > to + spec_interval + SLACK_LOOP:
+        out.append(("the poll loop was left %.2fs after it was entered with timeout %s (bound %.2fs: timeout + %.1fs poll interval + %.1fs)"
+                    % (span, to, to + spec_interval + SLACK_LOOP, spec_interval, SLACK_LOOP),
+                    {"loop_span": span, "sleeps": rec.sleeps[:5]}, span - (to + spec_interval + SLACK_LOOP)))
+    total_bound = bound + 2.0 + PER_PATH * max(1, len(rec.lcd)) * max(1, klen) / 50.0
+    if rec.wall > total_bound:
+        out.append(("LCD analysis took %.2fs with timeout %s (bound %.2fs for %d reported entries)" % (rec.wall, to, total_bound, len(rec.lcd)),
+                    {"wall": rec.wall, "bound": total_bound}, rec.wall - total_bound))
+    return out
+
+
 def real_clock_runs(ctx, lab, big):
     rng = ctx.rng
     thr = lab.orig["thr"]
@@ -274,19 +293,26 @@ def real_clock_runs(ctx, lab, big):
                 dist["complete"] += 1
             # ---- wall clock: waiting part, and the whole call
             if to >= 0 and rec.wait_wall is not None:
-                bound = to + spec_interval + SLACK_WAIT
-                if rec.wait_wall > bound:
-                    ctx.violation("waiting for the LCD workers took %.2fs with timeout %s (bound %.2fs); %s" % (rec.wait_wall, to, bound, where),
-                                  dict(rp, wait=rec.wait_wall, bound=bound, sleeps=rec.sleeps[:5]))
-                span = (rec.readings[-1] - rec.readings[0]) if len(rec.readings) >= 2 else 0.0
-                if span > to + spec_interval + SLACK_LOOP:
-                    ctx.violation("the poll loop was left %.2fs after it was entered with timeout %s (bound %.2fs: timeout + %.1fs poll interval + %.1fs); %s"
-                                  % (span, to, to + spec_interval + SLACK_LOOP, spec_interval, SLACK_LOOP, where),
-                                  dict(rp, loop_span=span, sleeps=rec.sleeps[:5]))
-                total_bound = bound + 2.0 + PER_PATH * max(1, len(rec.lcd)) * max(1, klen) / 50.0
-                if rec.wall > total_bound:
-                    ctx.violation("LCD analysis took %.2fs with timeout %s (bound %.2fs for %d reported entries); %s"
-                                  % (rec.wall, to, total_bound, len(rec.lcd), where), dict(rp, wall=rec.wall, bound=total_bound))
+                # Wall-clock bounds are judged on the best of up to three runs of the same input: a busy machine
+                # (other checks, builds) stretches process start-up, kill/join and the Python post-processing, which
+                # says nothing about the code. A poll loop that really over-sleeps or waits for its workers exceeds
+                # the bound on every attempt.
+                fails = timing_failures(rec, to, spec_interval, klen)
+                attempts = 1
+                best = rec
+                while fails and attempts < 3:
+                    attempts += 1
+                    ctx.count("timing_retries")
+                    rec2 = lab.run(kern, workers=n, threshold=min(thr, klen), timeout=to, start_delays=sd, want_cp=True,
+                                   watchdog=(to if to >= 0 else 0) + (45 if not has_ref else 90))
+                    if rec2.error or rec2.wait_wall is None:
+                        break
+                    f2 = timing_failures(rec2, to, spec_interval, klen)
+                    if sum(x[2] for x in f2) < sum(x[2] for x in fails):
+                        fails, best = f2, rec2
+                for what, extra, _ex in fails:
+                    ctx.violation("%s (best of %d attempts, load average %.1f); %s" % (what, attempts, os.getloadavg()[0], where),
+                                  dict(rp, attempts=attempts, **extra))
                 ctx.sample({"kernel": kern.name, "timeout": to, "wait_s": round(rec.wait_wall, 2), "wall_s": round(rec.wall, 2),
                             "timed_out": rec.timed_out, "entries": len(rec.lcd)})
             if to == -1 and (rec.timed_out or any(killed)):
